@@ -23,7 +23,7 @@ META = {
     "bounds": "all parameters real and unbounded (positive where the option is documented positive); index i real; "
               "_checkMonotonic/get_distance: 4-5 index points",
     "out": "interior monotonicity of the sqrt family (the code only guards the ends; _checkMonotonic is the run-time guard, whose contract is decided); "
-           "end gradients of sqrt cases with a singular coefficient a != 0 at that end; interior positivity of ds/di in the concave monotonic case (solver unknown); s_of_sperp; order of points on a real surface",
+           "end gradients of sqrt cases with a singular coefficient a != 0 at that end; interior positivity of ds/di in the concave monotonic case (solver unknown); accuracy of the interpolated s_of_sperp (scipy interp1d; its table is checked); order of points on a real surface",
     "assumptions": ["brentq -> root contract (concave monotonic case)", "log/exp uninterpreted: log(1)=0, log(1/x)=-log(x), exp>0, exp(0)=1",
                     "float literals idealised"],
 }
@@ -369,6 +369,272 @@ def ob_spacing_wiring(env):
 
 
 ENCM = ["hypnotoad.core.equilibrium:EquilibriumRegion.getMonotonicPoloidalDistanceFunc"]
+
+
+# ---- combineSfuncs: the weights that blend the fixed-spacing functions of the two ends with the orthogonal one ------------------------------
+class _ExpRecorder(types.ModuleType):
+    """stands for `numpy` inside hypnotoad.core.equilibrium while a combined spacing function is evaluated: records the arguments of exp;
+    symbolic mode: exp(a) is a fresh real w with 0 < w <= 1 for a <= 0, w = 1 iff a = 0 (all that the claims need from exp)"""
+    def __init__(self, env, base):
+        super().__init__("numpy_exp_recorder")
+        self.__dict__.update(_env=env, _base=base, args=[])
+
+    def __getattr__(self, k):
+        return getattr(self._base, k)
+
+    def exp(self, a):
+        env = self._env
+        x = a.item() if isinstance(a, numpy.ndarray) and a.size == 1 else a
+        self.args.append(x)
+        if env.mode != "sym":
+            return numpy.exp(a)
+        w = SymReal(env.freshreal("expw"))
+        xe = core.lift_real(x)
+        env.add(z3.And(w.e > 0, z3.Implies(xe <= 0, w.e <= 1), z3.Implies(xe == 0, w.e == 1), z3.Implies(xe < 0, w.e < 1), z3.Implies(xe > 0, w.e > 1)))
+        if isinstance(a, numpy.ndarray):
+            out = numpy.empty(a.shape, dtype=object)
+            out[...] = w
+            return out
+        return w
+
+
+def _mk_combine(lower_given, upper_given, orth_given, ix):
+    NX, SEP = [2, 3], 1            # nxInsideSeparatrix = 5, nxOutsideSeparatrix = 7 (both count the separatrix point)
+    NY = 3
+
+    def body(env):
+        sym = env.mode == "sym"
+        env.resolve_abs = False
+        r = eqm.EquilibriumRegion.__new__(eqm.EquilibriumRegion)
+        pref = env.real("N_norm_prefactor", pos=True)
+        r.user_options = types.SimpleNamespace(N_norm_prefactor=pref, sfunc_checktol=1.0e-13)
+        r.nonorthogonal_options = types.SimpleNamespace(nonorthogonal_radial_range_power=2.0)
+        r.nx, r.separatrix_radial_index, r.ny_noguards, r.ny_total, r.psi = NX, SEP, NY, 11, None
+        IL = 2.0 * NY
+        Nn = pref * 11
+        rng = {}
+        for end, given in (("lower", lower_given), ("upper", upper_given)):
+            for suffix in ("", "_inner", "_outer"):
+                k = "nonorthogonal_range_%s%s" % (end, suffix)
+                rng[k] = env.real(k, pos=True) if given else None
+        r.getSpacings = lambda: dict(rng)
+        L = env.real("L", pos=True)
+        contour = types.SimpleNamespace(global_xind=ix, totalDistance=lambda psi=None: L)
+        vals = {}
+
+        def stubf(name):
+            def f(i):
+                key = (name, id(i) if isinstance(i, numpy.ndarray) else i)
+                return vals[name]
+            f.__name__ = name
+            return f
+        calls = []
+
+        def fixed(N, dist, method=None, spacing_lower=None, spacing_upper=None):
+            calls.append(("fixed", N, dist, method, spacing_lower, spacing_upper))
+            return stubf("fixed_%d" % sum(1 for c in calls if c[0] == "fixed"))
+
+        def perp(N, cont, vec, lower, spacing_lower=None, spacing_upper=None):
+            calls.append(("perp", N, cont, vec, lower, spacing_lower, spacing_upper))
+            return stubf("perp_lower" if lower else "perp_upper"), None
+        r.getSfuncFixedSpacing, r.getSfuncFixedPerpSpacing = fixed, perp
+        checked = []
+        r._checkMonotonic = lambda lst, **kw: checked.append((lst, kw))
+        sorth = stubf("orth") if orth_given else None
+        vl, vu = "vector_lower", "vector_upper"
+        sp_l, sp_u = env.real("spacing_lower", pos=True), env.real("spacing_upper", pos=True)
+        try:
+            new = r.combineSfuncs(contour, sorth, vl, vu, spacing_lower=sp_l, spacing_upper=sp_u)
+        except ValueError:
+            env.tag("refused")
+            env.claim("refused_only_without_any_range_and_without_orthogonal_function", not lower_given and not upper_given and not orth_given)
+            return
+        env.witness("combined_function_built")
+        # what the component functions were asked for, and the run-time monotonicity guard sees the combined function
+        pl = [c for c in calls if c[0] == "perp" and c[4] is True]
+        pu = [c for c in calls if c[0] == "perp" and c[4] is False]
+        env.claim("fixed_perp_functions_of_both_ends_requested_on_the_half_index_grid_of_this_contour",
+                  len(pl) == 1 and len(pu) == 1 and pl[0][1] == 2 * NY + 1 and pu[0][1] == 2 * NY + 1 and pl[0][2] is contour and pu[0][2] is contour
+                  and pl[0][3] == vl and pu[0][3] == vu)
+        env.claim("end_spacings_passed_on", all(c[5] is sp_l and c[6] is sp_u for c in pl + pu))
+        env.claim("combined_function_is_checked_for_monotonicity", len(checked) == 1 and any(f is new for f, _ in checked[0][0])
+                  and checked[0][1].get("xind") == ix)
+        # expected ranges on this flux surface (quadratic transition from the separatrix value to the inner/outer boundary value)
+        xw = (ix / 6.0) ** 2 if ix >= 0 else (-ix / 4.0) ** 2
+        far = "_outer" if ix >= 0 else "_inner"
+        want = {e: ((1.0 - xw) * rng["nonorthogonal_range_" + e] + xw * rng["nonorthogonal_range_%s%s" % (e, far)]) if g else None
+                for e, g in (("lower", lower_given), ("upper", upper_given))}
+        fl, fu = "perp_lower", "perp_upper"
+        where = env.choose(5)
+        env.tag(("below", "at_0", "inside", "at_end", "above")[where])
+        i = {0: lambda: env.real("i_below", hi=-0.001), 1: lambda: 0.0 * L, 2: lambda: env.real("i_inside", lo=0.001, hi=IL - 0.001),
+             3: lambda: IL + 0.0 * L, 4: lambda: IL + env.real("i_above_offset", lo=0.001)}[where]()
+        for n in (fl, fu, "orth"):
+            vals[n] = env.real("value_" + n)
+        rec = _ExpRecorder(env, PROXY if sym else numpy)
+        with patched((eqm, "numpy", rec)):
+            arr = numpy.empty(1, dtype=object) if sym else numpy.empty(1)
+            arr[0] = i
+            out = new(arr)
+        env.add_uf_axioms()
+        out = out.item() if isinstance(out, numpy.ndarray) else out
+        env.witness("combined_function_evaluated")
+        a, b, o = vals[fl], vals[fu], vals["orth"]
+        both = lower_given and upper_given
+        if not lower_given and not upper_given:
+            env.claim_eq("without_ranges:orthogonal_function", out, o)
+            return
+        if not orth_given:
+            if both:
+                if where == 0:
+                    env.claim_eq("initial:below_0=lower_function", out, a)
+                elif where == 4:
+                    env.claim_eq("initial:above_end=upper_function", out, b)
+                elif where == 1:
+                    env.claim_eq("initial:at_0=lower_function", out, a)
+                elif where == 3:
+                    env.claim_eq("initial:at_end=upper_function", out, b)
+                else:
+                    lo, hi = (a, b)
+                    env.claim("initial:between_the_two_fixed_functions", ((out - a) * (out - b)) <= 0)
+            else:
+                env.claim("initial:single_range_returns_that_end's_function_itself", new.__name__ == (fl if lower_given else fu))
+            return
+        # weights: arguments of the Gaussians
+        k = 0
+        if where in (1, 2, 3):
+            if lower_given:
+                env.claim_eq("lower_weight=exp(-(i/N_norm/range_lower(x))^2)", rec.args[k], -((i / Nn / want["lower"]) ** 2))
+                k += 1
+            if upper_given:
+                env.claim_eq("upper_weight=exp(-((2ny-i)/N_norm/range_upper(x))^2)", rec.args[k], -(((IL - i) / Nn / want["upper"]) ** 2))
+        if where == 0:
+            env.claim_eq("below_0=" + ("lower_function" if lower_given else "orthogonal_function"), out, a if lower_given else o)
+        elif where == 4:
+            env.claim_eq("above_end=" + ("upper_function" if upper_given else "orthogonal_function"), out, b if upper_given else o)
+        else:
+            cands = [o] + ([a] if lower_given else []) + ([b] if upper_given else [])
+            if sym:
+                ge_min = core.sor(*[out >= c for c in cands])
+                le_max = core.sor(*[out <= c for c in cands])
+                env.claim("convex_combination_of_the_component_functions", ge_min & le_max)
+            else:
+                env.claim("convex_combination_of_the_component_functions", min(cands) - 1e-12 <= out <= max(cands) + 1e-12)
+            if where == 1 and lower_given:
+                # at the lower end the orthogonal function has no weight: whatever it returns, equal fixed functions give their value
+                if both:
+                    env.assume(a == b)
+                env.claim_eq("at_0:value_of_the_fixed_functions(orthogonal_function_has_no_weight)", out, a)
+            if where == 3 and upper_given:
+                if both:
+                    env.assume(a == b)
+                env.claim_eq("at_end:value_of_the_fixed_functions(orthogonal_function_has_no_weight)", out, b)
+    return body
+
+
+for _l, _u, _o, _ix in ((True, True, True, 0), (True, True, True, 6), (True, True, True, -4), (True, True, True, 3), (True, True, True, -2),
+                        (True, False, True, 3), (False, True, True, -2), (False, False, True, 0),
+                        (True, True, False, 0), (True, False, False, 0), (False, True, False, 0), (False, False, False, 0)):
+    OBLIGATIONS.append(Ob("combineSfuncs_lower%d_upper%d_orth%d_x%+d" % (_l, _u, _o, _ix), _mk_combine(_l, _u, _o, _ix),
+                          tier="quick" if _ix in (0, 3, -2) else "thorough", family="combined non-orthogonal weights",
+                          encodes=["hypnotoad.core.equilibrium:EquilibriumRegion.combineSfuncs"],
+                          desc="real combineSfuncs with stub component functions: weights (Gaussian arguments with the radially varying range), convexity, "
+                               "no weight of the orthogonal function at the ends, continuation beyond the ends, requests to the component constructors, guard wiring",
+                          bounds="ny=3, nx=[2,3] (separatrix after the first segment), fixed global x index; symbolic ranges, N_norm prefactor, index position "
+                                 "(5 position classes) and component values; radial power 2 (default)", max_paths=60))
+
+def _mk_ssperp(n, start):
+    """FineContour.interpSSperp: the perpendicular distance it tabulates against poloidal distance is zero at startInd, non-decreasing along the contour
+    (each increment is the absolute value of the true increment of the projection on the normal of `vec`), and the total is taken between the end indices"""
+    def body(env):
+        sym = env.mode == "sym"
+        env.resolve_abs = False
+        env.logic = "QF_NRA"
+        pts = numpy.empty((n, 2), dtype=object if sym else float)
+        for k in range(n):
+            pts[k, 0], pts[k, 1] = env.real("R%d" % k), env.real("Z%d" % k)
+        v0, v1 = env.real("vec_R"), env.real("vec_Z")
+        env.assume((v0 * v0 + v1 * v1) > 0.01)
+        dist = numpy.empty(n, dtype=object if sym else float)
+        for k in range(n):
+            dist[k] = env.real("distance%d" % k)
+        fc = types.SimpleNamespace(positions=pts, startInd=start, endInd=n - 1 - (1 if n > 3 else 0), distance=dist)
+        got = {}
+
+        def interp1d(x, y, **kw):
+            got.update(x=x.copy(), y=y.copy(), kw=kw)
+            return "S_OF_SPERP"
+        with sym_numpy(env, eqm), patched((eqm, "interpolate", types.SimpleNamespace(interp1d=interp1d))):
+            f, total = eqm.FineContour.interpSSperp(fc, [v0, v1])
+        env.witness("tabulated")
+        sp = got["x"]
+        env.claim("returns_the_interpolant_of_distance_against_sperp", f == "S_OF_SPERP" and got["kw"].get("fill_value") == "extrapolate")
+        env.claim_eq("sperp_zero_at_startInd", sp[start], 0)
+        norm = env.sqrt(core.SymReal(core.lift_real(v0 * v0 + v1 * v1))) if sym else (v0 * v0 + v1 * v1) ** 0.5
+        for k in range(n - 1):
+            true_inc = ((pts[k + 1, 0] - pts[k, 0]) * (-v1) + (pts[k + 1, 1] - pts[k, 1]) * v0) / norm
+            inc = sp[k + 1] - sp[k]
+            env.claim("sperp_non_decreasing", inc >= 0)
+            env.claim_eq("increment=|increment_of_projection_on_the_normal|:%d" % k, inc, abs(true_inc))
+        for k in range(n):
+            env.claim_eq("tabulated_distance_measured_from_startInd:%d" % k, got["y"][k], dist[k] - dist[start])
+        env.claim_eq("total=sperp(endInd)-sperp(startInd)", total, sp[fc.endInd] - sp[start])
+    return body
+
+
+for _n, _s0 in ((3, 0), (4, 1), (5, 2)):
+    OBLIGATIONS.append(Ob("interpSSperp_n%d_start%d" % (_n, _s0), _mk_ssperp(_n, _s0), tier="quick" if _n < 5 else "thorough", family="combined non-orthogonal weights",
+                          encodes=["hypnotoad.core.equilibrium:FineContour.interpSSperp"],
+                          desc="perpendicular distance table: zero at startInd, non-decreasing, increments = |projection increments|, total between the end indices",
+                          bounds="%d contour points with symbolic positions, symbolic direction vector (|vec|^2 > 0.01); scipy interp1d replaced by a recorder" % _n,
+                          max_paths=300))
+
+
+def ob_fixed_perp_wiring(env):
+    """getSfuncFixedPerpSpacing: the requested end gradient of the PERPENDICULAR distance is the option value at a wall end and the option value times
+    the sine of the angle between the separatrix and the X-point's bounding line at an X-point end; the monotonic constructor receives the total perpendicular
+    length, N-1 and N_norm; the result is s_of_sperp after that function"""
+    r = eqm.EquilibriumRegion.__new__(eqm.EquilibriumRegion)
+    pref, ny_total = env.real("N_norm_prefactor", pos=True), env.int("ny_total", lo=1)
+    r.user_options = types.SimpleNamespace(N_norm_prefactor=pref)
+    r.ny_total, r.psi = ny_total, "PSI"
+    md = {"monotonic_d_lower": env.real("option_d_lower", pos=True), "monotonic_d_upper": env.real("option_d_upper", pos=True)}
+    r.getSpacings = lambda: dict(md)
+    wall_start, wall_end, given = env.choose(2), env.choose(2), env.choose(2)
+    r.wallSurfaceAtStart = (lambda s: None) if wall_start else None
+    r.wallSurfaceAtEnd = (lambda s: None) if wall_end else None
+    r.sin_angle_at_start, r.sin_angle_at_end = env.real("sin_angle_at_start", lo=0.01, hi=1.0), env.real("sin_angle_at_end", lo=0.01, hi=1.0)
+    sl, su = (env.real("spacing_lower", pos=True), env.real("spacing_upper", pos=True)) if given else (None, None)
+    tot = env.real("sperp_total", pos=True)
+    seen = {}
+
+    def interp(vec, psi=None):
+        seen["interp"] = (vec, psi)
+        return (lambda x: ("s_of", x)), tot
+    contour = types.SimpleNamespace(interpSSperp=interp)
+
+    def mono(length, N, N_norm, *, d_lower, d_upper):
+        seen["mono"] = (length, N, N_norm, d_lower, d_upper)
+        return lambda i: ("sperp", i)
+    r.getMonotonicPoloidalDistanceFunc = mono
+    N = env.int("N", lo=2)
+    f, g = r.getSfuncFixedPerpSpacing(N, contour, "VEC", True, spacing_lower=sl, spacing_upper=su)
+    env.witness("built")
+    want_l = sl if given else md["monotonic_d_lower"]
+    want_u = su if given else md["monotonic_d_upper"]
+    env.claim("perpendicular_table_of_this_contour_for_the_given_direction", seen["interp"] == ("VEC", "PSI"))
+    env.claim_eq("length=total_perpendicular_distance", seen["mono"][0], tot)
+    env.claim_eq("N=npoints-1", seen["mono"][1], N - 1)
+    env.claim_eq("N_norm=prefactor*ny_total", seen["mono"][2], pref * ny_total)
+    env.claim_eq("d_lower:wall_end=option,xpoint_end=option*sin(angle)", seen["mono"][3], want_l if wall_start else want_l * r.sin_angle_at_start)
+    env.claim_eq("d_upper:wall_end=option,xpoint_end=option*sin(angle)", seen["mono"][4], want_u if wall_end else want_u * r.sin_angle_at_end)
+    env.claim("result=s_of_sperp(sperp_func(i))", f("I") == ("s_of", ("sperp", "I")) and g("I") == ("sperp", "I"))
+
+
+OBLIGATIONS.append(Ob("fixed_perp_spacing_wiring", ob_fixed_perp_wiring, tier="quick", family="combined non-orthogonal weights",
+                      encodes=["hypnotoad.core.equilibrium:EquilibriumRegion.getSfuncFixedPerpSpacing"],
+                      desc="end gradients of the perpendicular spacing function (sin(angle) factor at X-point ends only), constructor arguments, composition",
+                      bounds="8 combinations of wall/X-point ends and given/default spacings; symbolic values", max_paths=20))
 OBLIGATIONS.append(Ob("region_getRegridded_wiring", ob_region_getregridded_wiring, tier="quick", family="wiring", encodes=["hypnotoad.core.equilibrium:EquilibriumRegion.getRegridded"],
                       desc="point count, guard-cell extension at target ends of the requested radial segment only, spacing function made for the designated end-to-end distance",
                       stubs=["PsiContour.getRegridded, getSfuncFixedSpacing, newRegionFromPsiContour -> recorders"], bounds="4 connection combinations; ny, guards, distances symbolic"))
